@@ -1,3 +1,9 @@
 # C05 extra legs (sourced by ./check): the same workload in the debug-assertion build ("debug build" half of C05)
 build_relcheck
 run_leg relcheck "$VMON_RC" C05 --tier "$TIER" --seed "$SEED" --verif-dir "$VERIF" --out-dir "$OUT" --leg relcheck
+if [ "$TIER" = thorough ]; then
+    . "$VERIF/tools/san.sh"
+    # the exact path (iloc, in_sphere_test_exact with ibig) under Miri, sharded; valgrind on the corpus subset
+    miri_leg C05 norayon 8
+    valgrind_leg C05
+fi
